@@ -60,6 +60,30 @@ for (const f of inp.flows) out.flows.push(api.calculateCashFlow(f[0], f[1], f[2]
 process.stdout.write(JSON.stringify(out));
 """
 
+APP_DRIVER = r"""
+// The page's own script, whole, with Vue replaced by a stub that keeps the options object given to createApp(): setup() is then run once per report
+// (window.spendingData = that report's data, no filter active) and the computed `filteredViewTotals` is read - the totals the page shows.
+const vm = require('node:vm'); const fs = require('node:fs');
+const script = fs.readFileSync(process.argv[2], 'utf8');
+const reports = JSON.parse(fs.readFileSync(process.argv[3], 'utf8'));
+function hole() { const f = function () { return p; }; const p = new Proxy(f, {get: (t, k) => (k === Symbol.toPrimitive ? () => '' : (k === 'length' ? 0 : p)), apply: () => p, construct: () => p, has: () => false}); return p; }
+let captured = null;
+const app = {component() { return app; }, use() { return app; }, mount() { return app; }, directive() { return app; }, config: {globalProperties: {}}};
+const Vue = {createApp: o => { captured = o; return app; }, defineComponent: x => x, ref: v => ({value: v}), reactive: x => x, shallowRef: v => ({value: v}),
+  computed: f => (typeof f === 'function' ? {get value() { return f(); }} : {get value() { return f.get(); }, set value(v) { f.set(v); }}),
+  watch: () => {}, watchEffect: () => {}, onMounted: () => {}, onUnmounted: () => {}, onBeforeUnmount: () => {}, nextTick: f => (f ? f() : Promise.resolve())};
+const store = {spendingData: null};
+const win = new Proxy(store, {get: (t, k) => (k in t ? t[k] : hole())});
+const ctx = vm.createContext({Vue, window: win, document: hole(), localStorage: {getItem: () => null, setItem() {}}, console, setTimeout: () => 0, clearTimeout() {}, Chart: hole()});
+vm.runInContext(script, ctx);
+const out = [];
+for (const data of reports) {
+  store.spendingData = data;
+  try { const st = captured.setup(); out.push(st.filteredViewTotals.value); } catch (e) { out.push({error: String(e)}); }
+}
+process.stdout.write(JSON.stringify(out));
+"""
+
 SPECIAL = ['income', 'investment', 'transfer']
 ORDINARY = ['groceries', 'Recurring', 'café', 'ÜBER', '東京', 'incomes', 'transfers', 'invest', 'in come', '',
             # ordinary words that are also property names of every JavaScript object
@@ -227,6 +251,43 @@ def judge_pairs(rec, pairs, flows, py_pairs=None, label='', py_excluded=None, wh
             rec.interesting(['flow'] + f3)
 
 
+def page_totals(rec, pages):
+    """"... so totals recomputed in the browser agree with the totals tally prints": the page's own script is run (Vue stubbed, no filter active) over the
+    data of each generated report; its `filteredViewTotals` are the analysed totals of that report."""
+    if not pages:
+        return
+    tally = core.import_tally()
+    node = shutil.which('node') or shutil.which('nodejs')
+    js_path = os.path.join(os.path.dirname(tally.__file__), 'spending_report.js')
+    tmp = tempfile.mkdtemp(prefix='vt-c13a-')
+    try:
+        with open(os.path.join(tmp, 'app.js'), 'w') as f:
+            f.write(APP_DRIVER)
+        with open(os.path.join(tmp, 'reports.json'), 'w') as f:
+            json.dump([d for d, _ in pages], f)
+        p = subprocess.run([node, os.path.join(tmp, 'app.js'), js_path, os.path.join(tmp, 'reports.json')], capture_output=True, text=True, timeout=600)
+        if p.returncode != 0:
+            rec.count('page_script_not_runnable_under_the_stub')
+            rec.unsure('the page script could not be run under the Vue stub: ' + p.stderr.strip()[-200:])
+            return
+        outs = json.loads(p.stdout)
+    finally:
+        shutil.rmtree(tmp, ignore_errors=True)
+    for (data, want), got in zip(pages, outs):
+        rec.case()
+        if 'error' in got:
+            rec.count('page_setup_raises_under_the_stub')
+            continue
+        rec.count('page_total_recomputations')
+        diff = {k: (got.get(k), want[k]) for k in want if abs((got.get(k) or 0) - want[k]) > 1e-6 * (1 + abs(want[k]))}
+        if diff:
+            mixed = any(len({tuple(sorted(x.lower() for x in t.get('tags') or [] if x.lower() in SPECIAL)) for t in m['transactions']}) > 1
+                        for cat in data['categoryView'].values() for sub in cat['subcategories'].values() for m in sub['merchants'].values())
+            rec.violation('page-totals-differ-from-printed-totals' + (':merchant-with-differently-tagged-transactions' if mixed else ''),
+                          f'totals the page computes from its data (no filter active) vs the totals tally prints: {diff}', {'kind': 'report-level'})
+            return
+
+
 def report_level(rec, rnd, n):
     """End to end for the tag lists: the (amount, tags) pairs the PAGE holds for each merchant (decoded from a real report) go to the JavaScript,
     the pairs the ANALYSIS holds for the same merchant go to Python.  Whatever the report writer does to the tag list on the way is observed."""
@@ -236,6 +297,7 @@ def report_level(rec, rnd, n):
     from tally import analyzer as A
     tmp = tempfile.mkdtemp(prefix='vt-c13r-')
     js_pairs, py_pairs = [], []
+    pages = []
     dec_js, dec_py, dec_ex = [], [], []
     from tally.section_engine import parse_sections
     everything = parse_sections('[Everything]\nfilter: true\n')
@@ -261,6 +323,8 @@ def report_level(rec, rnd, n):
             rec.count('reports_decoded')
             n_page = sum(len(m['transactions']) for cat in data['categoryView'].values() for sub in cat['subcategories'].values() for m in sub['merchants'].values())
             n_cli = sum(len(d.get('transactions') or []) for d in stats['by_merchant'].values())
+            pages.append((data, {'income': stats['income_total'], 'spending': stats['spending_total'], 'credits': stats['credits_total'],
+                                 'investment': stats['investment_total'], 'transfers': stats['transfers_in'] - stats['transfers_out']}))
             rec.count('page_vs_analysis_transaction_counts')
             if n_page != n_cli:
                 rec.violation('transactions-missing-from-what-the-page-classifies', f'the analysis classified {n_cli} transactions, the data the page recomputes its totals from '
@@ -282,6 +346,7 @@ def report_level(rec, rnd, n):
     rec.count('report_level_pairs', len(js_pairs))
     if js_pairs:
         judge_pairs(rec, js_pairs, [], py_pairs=py_pairs, label=':tags-as-delivered-by-the-report')
+    page_totals(rec, pages)
     rec.count('excluded_decisions_taken_by_the_analysis', len(dec_js))
     rec.count('merchants_kept_out_of_views', sum(dec_ex))
     if dec_js:
